@@ -1,4 +1,7 @@
-(* Release/acquire publication obligations of the concurrent hash tables, as litmus programs on the explicit
+(* (definitions, skeleton, order extraction, refutations of the weakened orders; the instances for the orders found in the
+   source are in HC/HCLitmusProofs.v so that this file still compiles - and the witness search of checks/c03.py still runs -
+   when an order in the source was weakened)
+   Release/acquire publication obligations of the concurrent hash tables, as litmus programs on the explicit
    release/acquire machine coq/WM/RA.v, with the memory orders taken from the regenerated site tables
    (Gen_hash_table_conc: sites_do_emplace, sites_table_find, sites_set_emplace, sites_set_find).
 
@@ -53,55 +56,6 @@ Definition next_cas_order : morder := site_order KCasS 1 sites_set_emplace.
 Definition next_cas_fail_order : morder := site_fail_order KCasS 1 sites_set_emplace.
 Definition next_load_find_head_order : morder := site_order KLoad 0 sites_set_find.
 Definition next_load_find_node_order : morder := site_order KLoad 1 sites_set_find.
-
-(* ---- tag publication: every execution of the release/acquire machine ---- *)
-Theorem hc_tag_publication_find : forall sch,
-  final (run (init (mp_store_fence tag_store_order find_fence_order)) sch) = true ->
-  mp_bad (result (run (init (mp_store_fence tag_store_order find_fence_order)) sch)) = false.
-Proof. apply mp_store_fence_all_executions. vm_compute. reflexivity. Qed.
-Theorem hc_mirror_publication_find : forall sch,
-  final (run (init (mp_store_fence mirror_store_order find_fence_order)) sch) = true ->
-  mp_bad (result (run (init (mp_store_fence mirror_store_order find_fence_order)) sch)) = false.
-Proof. apply mp_store_fence_all_executions. vm_compute. reflexivity. Qed.
-Theorem hc_tag_publication_emplace : forall sch,
-  final (run (init (mp_store_fence tag_store_order emplace_fence_order)) sch) = true ->
-  mp_bad (result (run (init (mp_store_fence tag_store_order emplace_fence_order)) sch)) = false.
-Proof. apply mp_store_fence_all_executions. vm_compute. reflexivity. Qed.
-Theorem hc_mirror_publication_emplace : forall sch,
-  final (run (init (mp_store_fence mirror_store_order emplace_fence_order)) sch) = true ->
-  mp_bad (result (run (init (mp_store_fence mirror_store_order emplace_fence_order)) sch)) = false.
-Proof. apply mp_store_fence_all_executions. vm_compute. reflexivity. Qed.
-
-(* spelled out: a reader whose group load saw the tag reads the constructed element and nobody raced *)
-Corollary hc_tag_publication_spelled : forall sch,
-  let s := run (init (mp_store_fence tag_store_order find_fence_order)) sch in
-  final s = true -> oreg (result s) 1 0 = 1 -> oracy (result s) = false /\ oreg (result s) 1 1 = 42.
-Proof.
-  intros sch s Hf Hflag. pose proof (hc_tag_publication_find sch Hf) as B. fold s in B.
-  unfold mp_bad, saw_bad in B. rewrite Hflag in B. rewrite Z.eqb_refl in B. cbn [andb] in B.
-  apply orb_false_elim in B. destruct B as [Br Bv]. split; [exact Br|].
-  apply negb_false_iff in Bv. apply Z.eqb_eq in Bv. exact Bv.
-Qed.
-
-(* ---- chained-table publication ---- *)
-Theorem hc_next_publication_find_head : forall sch,
-  final (run (init (mp_cas_publish next_cas_order next_load_find_head_order)) sch) = true ->
-  mp_cas_bad (result (run (init (mp_cas_publish next_cas_order next_load_find_head_order)) sch)) = false.
-Proof. apply mp_cas_publish_all_executions. vm_compute. reflexivity. Qed.
-Theorem hc_next_publication_find_node : forall sch,
-  final (run (init (mp_cas_publish next_cas_order next_load_find_node_order)) sch) = true ->
-  mp_cas_bad (result (run (init (mp_cas_publish next_cas_order next_load_find_node_order)) sch)) = false.
-Proof. apply mp_cas_publish_all_executions. vm_compute. reflexivity. Qed.
-Theorem hc_next_publication_emplace : forall sch,
-  final (run (init (mp_cas_publish next_cas_order next_load_emplace_order)) sch) = true ->
-  mp_cas_bad (result (run (init (mp_cas_publish next_cas_order next_load_emplace_order)) sch)) = false.
-Proof. apply mp_cas_publish_all_executions. vm_compute. reflexivity. Qed.
-(* the loser of the CAS continues in the winner's table: the failing CAS must acquire (the machine's CAS has one
-   order: the source's success order, and the source's failure order must itself be an acquire) *)
-Theorem hc_next_cas_loser : has_acquire next_cas_fail_order = true /\ forall sch,
-  final (run (init (mp_cas_loser next_cas_order)) sch) = true ->
-  mp_loser_bad (result (run (init (mp_cas_loser next_cas_order)) sch)) = false.
-Proof. split; [vm_compute; reflexivity|]. apply mp_cas_loser_all_executions. vm_compute. reflexivity. Qed.
 
 (* ---- each weakening has a bad execution (the explorer is complete: `false` = some listed outcome is bad) ---- *)
 Lemma hc_tag_relaxed_store_refuted : mp_store_fence_safe Relaxed Acquire = false. Proof. vm_compute. reflexivity. Qed.
